@@ -134,7 +134,7 @@ CHECKS["C03"] = dict(
 CHECKS["C14"] = dict(
     category="proof",
     text="CommonRoadSolutionWriter (root, trajectory, state and sub-element builders) and CommonRoadSolutionReader (header, benchmark id, vehicle id, trajectory, state parsing) are executed symbolically back to back on abstract XML documents for every (vehicle model, trajectory kind) pair incl. input vectors and KST, int- and float-typed state values, optional metadata present and absent, single and cooperative solutions: same benchmark id, planning-problem ids, vehicle model / type, cost function, trajectory type, ascending time steps, BIT-IDENTICAL state values (tolerance 0), computation time, processor name, date to the second; the written document is validated against content models parsed from the shipped solution XSD (trajectory types the schema defines, in schema order); the state-field tables are checked exhaustively for index alignment and distinct names.",
-    note="str(np.float64(x)) / str(int) denote exactly the number and float()/int() parse them back exactly (assumed, Python's shortest round-trip repr); strftime/strptime natively on a concrete date; XML serialise/parse transparent; 2 states per trajectory; one cost function and vehicle type per model in the symbolic run",
+    note="str(np.float64(x)) / str(int) denote exactly the number and float()/int() parse them back exactly (assumed, Python's shortest round-trip repr); strftime/strptime natively on a concrete date; XML serialise/parse transparent; 2 states per trajectory; every (vehicle model, vehicle type, supported cost function) triple is covered exhaustively by cooperative solutions with one planning-problem solution per pair (non-ascending planning-problem ids)",
     technique="deductive: AST symbolic execution of real solution writer and reader on abstract XML documents + XSD content-model validation, exact round-trip postcondition discharged by z3; finite tables by exhaustion",
     design_ref="5/C14",
 )
